@@ -33,7 +33,7 @@ for p in props:
     if not os.path.exists(os.path.join(V, 'tools', 'pv', 'props', pid + '.py')):
         continue
     mod = importlib.import_module('pv.props.' + pid)
-    if getattr(mod, 'DISABLED', False):
+    if getattr(mod, 'DISABLED', False) or not mod.THEOREMS:
         continue
     claimed.append(pid)
     checks.append({
